@@ -723,7 +723,11 @@ func TestRace(t *testing.T) {
 					}
 					// third oracle: "what it would return alone" is what a process that has done nothing else
 					// returns. The layouts are shared out among the workers (each is checked by one of them).
-					if replay != nil || layoutIdx[name]%workers == worker%workers {
+					if replay == nil && time.Since(start) > budget+150*time.Second {
+						// the comparisons with fresh processes are bounded in time: the driver allows a margin after
+						// the budget, and a machine under load starts a new process slowly
+						res.Counters["fresh-process-comparisons-skipped-for-time"]++
+					} else if replay != nil || layoutIdx[name]%workers == worker%workers {
 						fresh, err := freshProcess([]string{name}, []string{layouts[name].root}, pc.g.ViaCLI, pc.g.ShareInterp)
 						switch {
 						case err != nil:
